@@ -76,6 +76,9 @@ func main() {
 			"Concurrent: the same operations from 2..8 goroutines against top-level group / filter / bare verifier in both wirings (quick 40 runs + 120 under the race detector, thorough 1200 + 1400), per-verifier histories " +
 			"{add(request), read->multiset, reset} checked for linearizability with porcupine; the workload also runs under the race detector. " +
 			"API exchanges are drawn from the same distribution as ordinary traffic w.r.t. everything verifiers and filters look at (header present with matching / other / blank value or absent on either side, method, query keys, cookies; API responses carry the drawn headers). " +
+			"Header verifiers also target Host and Transfer-Encoding (kept outside the header map by net/http; messages are built as http.ReadRequest/ReadResponse deliver them, chunked bodies included). " +
+			"Stress runs (quick 16 + 8 under the race detector, thorough 320 + 168): 3-5 goroutines x 60-120 exchanges racing with 2-4 query loops and, in every second run, a reset loop; interval checks on every query (nothing spurious, duplicated or surviving a completed reset, nothing completed-before-the-query missing). " +
+			"Every concurrent run is awaited by quiescence (vh.Await): operations that never return while all martian goroutines are parked = violation C13:stuck (the batch then ends). " +
 			"A class = (top-level kind | depth | verifier kinds bucket | branch placement | history pattern) observed at a compared query, (verifier kind | side | failure path or met | api or traffic) for every evaluation covered by a compared query, plus porcupine partitions checked by verifier kind and overlap bucket.",
 		Assumptions: []string{
 			"trees are restricted to node types that implement martian's verify walk (fifo.Group and filter.Filter-based filters); verifiers under priority.Group, header.RegexFilter or port.Filter are not explored",
@@ -532,8 +535,10 @@ func (a *attributor) attribute(msg string) (attr, string) {
 			}
 		}
 	}
-	if len(cands) == 0 && ri.Msg.API {
-		cands = all // an API request is not judged by its content
+	if len(cands) == 0 && (ri.Msg.API || len(all) == 1) {
+		// an API request is not judged by its content; and a message naming only a
+		// verifier the request meets comes from that verifier (it will be judged spurious)
+		cands = all
 	}
 	if len(cands) != 1 {
 		return attr{Req: ri}, fmt.Sprintf("%d candidate verifiers for request %s", len(cands), tok)
@@ -1205,14 +1210,20 @@ func awaitAll(r *vh.Run, c interface{}, wg *sync.WaitGroup, progress *int64, wha
 	case vh.Happened:
 		return true
 	case vh.Stuck:
-		frames := map[string]bool{}
+		frames, waiting := map[string]bool{}, map[string]bool{}
 		for _, g := range vh.MartianGoroutines() {
 			if !strings.HasPrefix(g.State, "sync.") && !strings.HasPrefix(g.State, "semacquire") {
 				continue
 			}
 			for _, f := range g.Funcs {
 				if strings.HasPrefix(f, vh.MartianPkg) {
-					frames[strings.TrimPrefix(strings.TrimPrefix(f, vh.MartianPkg), "/")] = true
+					fn := strings.TrimPrefix(strings.TrimPrefix(f, vh.MartianPkg), "/")
+					waiting[fn] = true
+					// the signature names the type whose lock is waited for, not the method
+					if i := strings.LastIndex(fn, "."); i > 0 {
+						fn = fn[:i]
+					}
+					frames[fn] = true
 					break
 				}
 			}
@@ -1222,9 +1233,18 @@ func awaitAll(r *vh.Run, c interface{}, wg *sync.WaitGroup, progress *int64, wha
 			fs = append(fs, f)
 		}
 		sort.Strings(fs)
+		if len(fs) > 1 {
+			fs = fs[:1] // one defect, one signature; the full set is in the witness
+		}
 		if detail == nil {
 			detail = map[string]interface{}{}
 		}
+		var ws []string
+		for f := range waiting {
+			ws = append(ws, f)
+		}
+		sort.Strings(ws)
+		detail["waiting_in"] = ws
 		detail["goroutines"] = fp
 		r.ViolationCase(c, "C13:stuck:"+strings.Join(fs, "|"),
 			what+": operations never return - all martian goroutines are parked and nothing completes any more (deadlock); every failure recorded so far is lost to the caller", detail)
@@ -1640,7 +1660,7 @@ func runStress(r *vh.Run, c stressCase) bool {
 			for k := 0; k < perQ; k++ {
 				// issue the k-th pair of queries once k/perQ of the traffic has completed
 				for atomic.LoadInt64(&done) < total*int64(k)/int64(perQ) && harnessErr.Load() == nil {
-					runtime.Gosched()
+					time.Sleep(20 * time.Microsecond) // pacing only, no verdict depends on it
 				}
 				for j := 0; j < 2; j++ {
 					var rec sQuery
@@ -1659,7 +1679,7 @@ func runStress(r *vh.Run, c stressCase) bool {
 			gate()
 			for k := 0; k < nResets; k++ {
 				for atomic.LoadInt64(&done) < total*int64(k)/int64(nResets) && harnessErr.Load() == nil {
-					runtime.Gosched()
+					time.Sleep(20 * time.Microsecond)
 				}
 				var rec sReset
 				rec.t0 = stamp()
@@ -1849,7 +1869,7 @@ func run(r *vh.Run, batch string) {
 		}
 		ns := r.Pick(8, 40)
 		if race {
-			ns = r.Pick(4, 16)
+			ns = r.Pick(2, 12)
 		}
 		for i := 0; i < ns; i++ {
 			c := stressCase{Kind: "stress", Stream: "c13-stress-" + batch, Idx: i}
